@@ -267,3 +267,46 @@ pub fn sr_get_rule(cp: u32) -> Option<precis_core::context::ContextRule> {
     }
     None
 }
+
+// ---- S-ADV: Chars::advance_by (the chunked, pointer-heavy std implementation behind `chars().nth(k)`) replaced by
+// the defining loop over next(); same result for every iterator state and count.
+pub fn s_advance_by<'a>(it: &mut core::str::Chars<'a>, n: usize) -> Result<(), core::num::NonZero<usize>>
+where
+    'a: 'a,
+{
+    let mut i = 0usize;
+    while i < n {
+        if it.next().is_none() {
+            return Err(core::num::NonZero::new(n - i).unwrap());
+        }
+        i += 1;
+    }
+    Ok(())
+}
+
+// ---- S-CHARS: <Chars as Iterator>::next (std: raw-pointer slice iterator + next_code_point) replaced by an equivalent
+// decoder that indexes the remaining bytes; the input is a &str, hence valid UTF-8, and the decoder is the inverse of
+// the encoder used everywhere else.  Cuts Kani's per-pointer-operation instrumentation out of every character loop.
+pub fn s_chars_next<'a>(it: &mut core::str::Chars<'a>) -> Option<char>
+where
+    'a: 'a,
+{
+    let s: &'a str = it.as_str();
+    let b = s.as_bytes();
+    if b.len() == 0 {
+        return None;
+    }
+    let b0 = b[0] as u32;
+    let (v, n) = if b0 < 0x80 {
+        (b0, 1usize)
+    } else if b0 < 0xE0 {
+        (((b0 & 0x1F) << 6) | (b[1] as u32 & 0x3F), 2)
+    } else if b0 < 0xF0 {
+        (((b0 & 0x0F) << 12) | ((b[1] as u32 & 0x3F) << 6) | (b[2] as u32 & 0x3F), 3)
+    } else {
+        (((b0 & 0x07) << 18) | ((b[1] as u32 & 0x3F) << 12) | ((b[2] as u32 & 0x3F) << 6) | (b[3] as u32 & 0x3F), 4)
+    };
+    let rest: &'a str = unsafe { core::str::from_utf8_unchecked(&b[n..]) };
+    *it = rest.chars();
+    Some(unsafe { char::from_u32_unchecked(v) })
+}
